@@ -164,6 +164,7 @@ type Obligation struct {
 	SMTFile string
 	Vacuity bool // expected NOT provable (cover)
 	BudgetS int // per-solver time limit override from the contract (0 = tier default)
+	SplitFirst bool
 	CaseTerms []string // reference-valued entry terms (parameters and their pointer fields) for case splits
 }
 
@@ -240,6 +241,7 @@ func (ex *Exec) oblige(st *State, kind string, props []string, goal, desc string
 	o.CaseTerms = ex.caseTerms()
 	if ex.top != nil && ex.top.Spec != nil {
 		o.BudgetS = ex.top.Spec.BudgetS
+		o.SplitFirst = ex.top.Spec.SplitFirst
 	}
 	ex.obls = append(ex.obls, o)
 }
